@@ -540,6 +540,30 @@ def mergeResults (completion : List Verdict) : Bool × Bool :=
   let m := completion.foldl Merge.step {}
   if m.rErr then (true, false) else (false, m.qErr)
 
+/-! ### where the check group is declared (internal/msgpipeline: `Start`, `AddRcpt`, `(*checkRunner).checkStates`)
+
+A check group is declared globally, in a source block, or in a destination block.  The states of the checks of a
+destination block are created when a recipient of that block is named; `checkStates` then REPLAYS the connection and
+sender stages on the new states, and a rejection of the replayed sender fails the RCPT TO being processed (the states
+are closed again, so the next recipient of the block gets the same replay).  Checks declared globally / in the source
+block decide at MAIL FROM; the endpoint reports their rejection at every RCPT TO (`defer_sender_reject`, the default).
+`inBlock` = the recipient routes into the block that declares the group. -/
+inductive Place | global | source | dest
+deriving DecidableEq, Repr
+
+/-- is a recipient's delivery behind the check group? -/
+def Place.behind : Place → Bool → Bool
+  | .dest, inBlock => inBlock
+  | _, _ => true
+
+/-- one RCPT TO: accepted? (`senderRejects`: the group's merged verdict on the envelope sender fails a command) -/
+def rcptAccepted (p : Place) (senderRejects inBlock : Bool) : Bool :=
+  !(p.behind inBlock && senderRejects)
+
+/-- the recipients of one message in the order they are named ↦ which are accepted -/
+def placedRcpts (p : Place) (senderRejects : Bool) (order : List Bool) : List Bool :=
+  order.map (rcptAccepted p senderRejects)
+
 /-! ### SASL PLAIN on the endpoint (internal/auth/sasl.go), as far as the identity is concerned
 
 The client sends an authorization identity (may be empty), a login name and a password.  The
